@@ -44,10 +44,11 @@ pub struct SessSt {
     pub cli_out: RefDecoder,
     pub srv_track: Track,
     pub cli_track: Track,
+    pub log: Vec<String>,     // the session ops of this case, for replaying the history into fresh sessions (C15 oracle)
 }
 
 impl SessSt {
-    pub fn new() -> Self { SessSt { srv: None, srv_out: RefDecoder::new(false), cli: None, cli_out: RefDecoder::new(false), srv_track: Track::new(), cli_track: Track::new() } }
+    pub fn new() -> Self { SessSt { srv: None, srv_out: RefDecoder::new(false), cli: None, cli_out: RefDecoder::new(false), srv_track: Track::new(), cli_track: Track::new(), log: vec![] } }
 }
 
 fn record_srv(t: &mut Track, rs: &[ServerSessionResult]) { for r in rs { if let ServerSessionResult::OutboundResponse(p) = r { t.packets.push((p.bytes.clone(), p.can_be_dropped, false)); } } }
@@ -123,7 +124,7 @@ pub fn show_out(rd: &mut RefDecoder, p: &Packet) -> String {
     let mut trial = rd.clone();
     trial.hdr_bytes.clear();
     match trial.decode_all(&p.bytes) {
-        Err(_) => format!("out:{}:{}:UNDECODABLE:{}", d, p.bytes.len(), show_bytes(&p.bytes)),
+        Err(_) => { let mut sorted = p.bytes.clone(); sorted.sort(); format!("out:{}:{}:UNDECODABLE:{:016x}", d, p.bytes.len(), crate::util::fnv64(&sorted)) }
         Ok(ms) => {
             let hdrs = trial.hdr_bytes.clone();
             *rd = trial;
@@ -241,7 +242,52 @@ fn s_of(b: Vec<u8>) -> Option<String> { String::from_utf8(b).ok() }
 
 thread_local! { static CLI_DROP: std::cell::Cell<bool> = std::cell::Cell::new(false); }
 
+/// canonical result tokens with everything removed that legitimately depends on call boundaries: acknowledgements
+fn strip_acks(line: &str) -> Vec<String> {
+    line.split(' ').filter(|t| *t != "|" && *t != "ok" && !t.is_empty()).filter(|t| !(t.starts_with("out:") && t.split(':').nth(4).map(|m| m.starts_with("3.0.")).unwrap_or(false))).map(|t| {
+        // the packet length and header bytes of later packets legitimately differ when an acknowledgement was (not) sent
+        // before them on the same chunk stream: compare the decoded message only
+        if t.starts_with("out:") { let p: Vec<&str> = t.splitn(5, ':').collect(); format!("out:{}:{}", p[1], p.get(4).unwrap_or(&"")) } else { t.to_string() }
+    }).collect()
+}
+
+/// C15 (sessions): replay this case's history into two fresh sessions, deliver `data` under two partitions, compare
+fn split_oracle(st: &SessSt, server: bool, sizes_a: &[usize], sizes_b: &[usize], now: &str, data: &str) -> String {
+    // after an input call that returned Err the session is in known-finding K2 territory (its output stream may already be
+    // undecodable): the partition oracle is about sessions that are still healthy
+    {
+        let mut probe = SessSt::new();
+        for l in &st.log { let toks: Vec<&str> = l.split(' ').collect(); if let Some(o) = op_inner(&mut probe, &toks) { if (toks[0] == "srv.in" || toks[0] == "cli.in") && o.contains("err:") { return "! ok skipped-history-contains-a-failed-input-call".into(); } } }
+    }
+    let run = |sizes: &[usize]| -> (Vec<String>, Option<String>) {
+        let mut fresh = SessSt::new();
+        for l in &st.log { let toks: Vec<&str> = l.split(' ').collect(); let _ = op_inner(&mut fresh, &toks); }
+        let sz = if sizes.is_empty() { "all".to_string() } else { sizes.iter().map(|x| x.to_string()).collect::<Vec<_>>().join(",") };
+        let line = op_inner(&mut fresh, &[if server { "srv.in" } else { "cli.in" }, now, &sz, data]).unwrap_or_default();
+        let err = line.split(' ').find(|t| t.starts_with("err:")).map(|t| t.to_string());
+        (strip_acks(&line).into_iter().filter(|t| !t.starts_with("err:")).collect(), err)
+    };
+    let (ra, ea) = run(sizes_a);
+    let (rb, eb) = run(sizes_b);
+    if ea != eb { return format!("! FAIL partitions-report-different-errors {:?} vs {:?}", ea, eb); }
+    if ra != rb {
+        if ea.is_some() { return format!("! FAIL error-partitions-differ-in-delivered-results {} vs {} results before {}", ra.len(), rb.len(), ea.unwrap()); }
+        let i = ra.iter().zip(rb.iter()).position(|(a, b)| a != b).unwrap_or(std::cmp::min(ra.len(), rb.len()));
+        return format!("! FAIL partitions-differ at result {}: {} vs {}", i, ra.get(i).cloned().unwrap_or("none".into()).chars().take(120).collect::<String>(), rb.get(i).cloned().unwrap_or("none".into()).chars().take(120).collect::<String>());
+    }
+    format!("! ok {} results {}", ra.len(), ea.unwrap_or("-".into()))
+}
+
 pub fn op(st: &mut SessSt, toks: &[&str]) -> Option<String> {
+    if let ["!sess.split", side, sa, sb, now, data] = toks {
+        return Some(split_oracle(st, *side == "s", &parse_sizes(sa)?, &parse_sizes(sb)?, now, data));
+    }
+    let r = op_inner(st, toks);
+    if r.is_some() && toks.first().map(|t| t.starts_with("srv.") || t.starts_with("cli.")) == Some(true) { st.log.push(toks.join(" ")); }
+    r
+}
+
+fn op_inner(st: &mut SessSt, toks: &[&str]) -> Option<String> {
     if toks.first().map(|t| t.starts_with("cli.") && *t != "cli.media") == Some(true) { CLI_DROP.with(|d| d.set(false)); }
     Some(match toks {
         ["!sess.uptime", kind, ms] => uptime_run(*kind == "s", ms.parse().ok()?),
